@@ -114,13 +114,14 @@ func (h *NFSProcedureHandler) handleCreate(body io.Reader, reply *RPCReply, auth
 		if (isExclusive || createHow == 0) && errors.Is(err, os.ErrExist) {
 			lookupPath := path.Join(node.path, name)
 			existingNode, lookupErr := h.server.handler.Lookup(lookupPath)
-			if lookupErr == nil && !isExclusive {
+			if lookupErr == nil {
 				existingNode.mu.RLock()
 				regular := existingNode.attrs.Mode&os.ModeType == 0
 				existingNode.mu.RUnlock()
 				if !regular {
+					// a directory or symlink is never the product of a CREATE
 					lookupErr = err
-				} else if setSize && newSize <= uint64(math.MaxInt64) {
+				} else if !isExclusive && setSize && newSize <= uint64(math.MaxInt64) {
 					if truncErr := existingNode.Truncate(int64(newSize)); truncErr == nil {
 						h.server.handler.attrCache.Invalidate(lookupPath)
 						existingNode, lookupErr = h.server.handler.Lookup(lookupPath)
